@@ -1079,10 +1079,15 @@ func c01Funnel(r *core.Run, rule string, a *svcAnchors, root []*ssa.Function) {
 				r.Bad(rule, fname, construct, p.InstrPos(c), "callback started on its own goroutine: it escapes per-group serialisation")
 			case handlerWrapper(fn):
 				r.ExemptObl(rule, fname, construct, p.InstrPos(c), "typed-handler wrapper closure stored in Handler.Get: it is itself invoked as a handler by the dispatcher")
-			case fn.Name() == "QueryEvent" && strings.Contains(kind, "QueryRequest"):
-				// failed-subscribe edge: must be on the subscription-error edge
+			case strings.Contains(kind, "QueryRequest") && (fn.Name() == "QueryEvent" || queryEventAbortHelper(p, fn) != nil):
+				// failed-subscribe edge: must be on the subscription-error edge (the call may sit in a small
+				// helper that QueryEvent calls on that edge: abortQueryEvent(cb, err))
+				at := ssa.Instruction(c)
+				if site := queryEventAbortHelper(p, fn); site != nil {
+					at = site
+				}
 				onErr := false
-				for _, ed := range dominatingEdges(c) {
+				for _, ed := range dominatingEdges(at) {
 					if strings.Contains(describeCond(ed), "!=nil") {
 						onErr = true
 					}
@@ -1959,4 +1964,22 @@ func returnedBy(pushed ssa.Value, mu *ssa.MapUpdate) bool {
 		n++
 	}
 	return n > 0
+}
+
+// queryEventAbortHelper: fn is a private helper whose single call site lies in
+// the exported QueryEvent method of the resource (the failed-subscribe step
+// moved out of it); the call site is returned.
+func queryEventAbortHelper(p *core.Prog, fn *ssa.Function) ssa.CallInstruction {
+	if fn == nil || fn.Parent() != nil || !p.IsPrivateHelper(fn) {
+		return nil
+	}
+	cs := p.CallersOf(fn)
+	if len(cs) != 1 {
+		return nil
+	}
+	par := cs[0].Parent()
+	if par.Name() != "QueryEvent" || par.Parent() != nil || par.Signature.Recv() == nil || core.TypeName(par.Signature.Recv().Type()) != "resource" {
+		return nil
+	}
+	return cs[0]
 }
